@@ -4,20 +4,27 @@
 //! any mis-pairing or lost row is visible.  The same tagging is rebuilt by the Lean driver from
 //! (n, p, t), so request lines stay short.
 //!
-//! Variants driven (round 2): memory layouts of records / targets (`C` row-major, `F` column-major,
-//! `S` strided slice of a larger array, `R` reversed rows = negative stride), element types
+//! Variants driven: memory layouts of records / targets (`C` row-major, `F` column-major,
+//! `S` strided slice of a larger array, `R` reversed rows = negative row stride, `Q` reversed
+//! columns = negative column stride, `O` standard layout that does NOT start at its allocation =
+//! a row slice of a larger owned array), feature / target widths 0..4 / 0..3, element types
 //! (records f64/f32, targets f64/f32/usize), storage (owned `Array`, read-only / mutable views,
 //! `ArcArray`), `CountedTargets` (label recount of the folded parts), accumulator `FACC` f64/f32,
 //! `k > 255`, no candidate model at all, several `linfa::Error` variants out of the evaluation closure.
 //!
 //! What is compared with the model is what the statement promises: the training part of a pair as a
-//! multiset of (record, target) rows (printed sorted), the validation part in order; requests
-//! outside the property's guard `2 <= k <= n` are run but answered `unguarded` on both sides;
-//! when several scripted cells of a cross-validation fail, any one of them may surface.
+//! multiset of (record, target) rows (printed sorted), the validation part in order; `fold`
+//! requests outside the property's guard `2 <= k <= n` are run but answered `unguarded` on both
+//! sides (its panics there are not documented); `iter_fold` / `cross_validate` are compared for
+//! EVERY k and layout, their three documented panics included (`sr=`/`st=` = "as_slice_mut() is
+//! Some", probed on a twin array); when several scripted cells of a cross-validation fail, any one
+//! of them may surface.
 use crate::util::*;
 use linfa::dataset::{AsTargets, CountedTargets, DatasetBase, DatasetView, Labels, TargetDim};
 use linfa::traits::{Fit, PredictInplace};
 use ndarray::{s, Array, Array1, Array2, ArrayView, ArrayView1, ArrayView2, Axis, Dimension, Ix1, Ix2, ShapeBuilder};
+
+const OFF: usize = 3;
 use std::cell::RefCell;
 use std::panic::{catch_unwind, AssertUnwindSafe};
 
@@ -74,12 +81,27 @@ fn build2_with<A: El>(n: usize, cols: usize, lay: char, f: impl Fn(usize, usize)
             a.invert_axis(Axis(0));
             a
         }
+        'Q' => {
+            // reversed columns: negative stride along axis 1 (contiguous in memory order, not standard)
+            let mut a = Array2::from_shape_fn((n, cols), |(i, j)| f(i, cols - 1 - j));
+            a.invert_axis(Axis(1));
+            a
+        }
+        'O' => {
+            // standard layout, but the first element is not the start of the allocation
+            let big = Array2::from_shape_fn((n + OFF + 1, cols), |(i, j)| if i >= OFF && i < n + OFF { f(i - OFF, j) } else { A::of(JUNK + i + j) });
+            big.slice_move(s![OFF..n + OFF, ..])
+        }
         _ => unreachable!(),
     }
 }
 fn build1_with<A: El>(n: usize, lay: char, f: impl Fn(usize) -> A) -> Array1<A> {
     match lay {
-        'C' | 'F' => Array1::from_shape_fn(n, |i| f(i)),
+        'C' | 'F' | 'Q' => Array1::from_shape_fn(n, |i| f(i)),
+        'O' => {
+            let big = Array1::from_shape_fn(n + OFF + 1, |i| if i >= OFF && i < n + OFF { f(i - OFF) } else { A::of(JUNK + i) });
+            big.slice_move(s![OFF..n + OFF])
+        }
         'S' => {
             let big = Array1::from_shape_fn(2 * n + 1, |i| if i % 2 == 1 { f(i / 2) } else { A::of(JUNK + i) });
             big.slice_move(s![1..;2])
@@ -124,6 +146,35 @@ fn tgts_l<B: El, I: TD>(n: usize, t: usize, lay: char) -> Array<B, I> {
     I::build_with(n, t, lay, |i, c| B::of(TBASE + i * t + c))
 }
 
+/// does `iter_fold` get a slice out of this array, held the way the dataset holds it?  (ndarray's
+/// contract, asked of ndarray on a twin array.)  Records: `records.as_slice_mut()` — standard layout,
+/// checked BEFORE the storage is made unique.  Targets: `as_targets_mut()` = `view_mut()` first, which
+/// makes a shared `ArcArray` unique — one that shows at most half of its allocation is copied
+/// compactly at that point — and then `as_slice_mut()` on the view.
+fn slice_mut_ok<A: Clone, D: Dimension>(a: Array<A, D>, own: u8, through_view: bool) -> bool {
+    if own == 2 {
+        let rs = a.into_shared();
+        let mut x = rs.clone();
+        let ok = if through_view {
+            let mut v = x.view_mut();
+            v.as_slice_mut().is_some()
+        } else {
+            x.as_slice_mut().is_some()
+        };
+        drop(rs);
+        ok
+    } else {
+        let mut a = a;
+        let mut v = a.view_mut();
+        v.as_slice_mut().is_some()
+    }
+}
+fn probe_std(n: usize, p: usize, t: usize, dim: usize, lr: char, lt: char, own: u8) -> (bool, bool) {
+    let r = slice_mut_ok(recs_l::<f64>(n, p, lr), own, false);
+    let t = if dim == 1 { slice_mut_ok(tgts_l::<f64, Ix1>(n, 1, lt), own, true) } else { slice_mut_ok(tgts_l::<f64, Ix2>(n, t, lt), own, true) };
+    (r, t)
+}
+
 fn rows2<A: El>(a: &ArrayView2<A>) -> Vec<Vec<u64>> {
     a.rows().into_iter().map(|r| r.iter().map(|x| x.id()).collect()).collect()
 }
@@ -142,6 +193,10 @@ fn sort_paired(r: &[Vec<u64>], t: &[Vec<u64>]) -> (Vec<Vec<u64>>, Vec<Vec<u64>>)
     z.sort();
     z.into_iter().unzip()
 }
+/// sample id read off a tagged target row (for datasets without a feature column)
+fn tagged_id(t: usize) -> impl Fn(&[u64]) -> Option<usize> {
+    move |b: &[u64]| if t == 0 || b.is_empty() { None } else { (b[0] as usize).checked_sub(TBASE).map(|x| x / t) }
+}
 fn guard(n: usize, k: usize) -> bool {
     k >= 2 && k <= n
 }
@@ -154,15 +209,16 @@ type Pair = (Rows, Rows, Rows, Rows);
 
 /// naive oracle for one (train, valid) pair: disjoint, union = everything, block position, pairing.
 /// `exp_t(id)` is the target row that belongs to record `id`.
-fn oracle_pair(ctx: &mut Ctx, what: &str, n: usize, k: usize, p: usize, i: usize, pair: (&[Vec<u64>], &[Vec<u64>], &[Vec<u64>], &[Vec<u64>]), exp_t: &dyn Fn(usize) -> Vec<u64>) {
+/// `id_from_t` identifies the sample by its target row; used only when the records have no column.
+fn oracle_pair(ctx: &mut Ctx, what: &str, n: usize, k: usize, p: usize, i: usize, pair: (&[Vec<u64>], &[Vec<u64>], &[Vec<u64>], &[Vec<u64>]), exp_t: &dyn Fn(usize) -> Vec<u64>, id_from_t: &dyn Fn(&[u64]) -> Option<usize>) {
     let (tr_r, tr_t, va_r, va_t) = pair;
     let fs = n / k;
     let class = nk_class(what, n, k);
-    let id_of_r = |row: &Vec<u64>| -> Option<usize> {
-        if row.len() != p || p == 0 {
+    let id_of_r = |row: &Vec<u64>, trow: &Vec<u64>| -> Option<usize> {
+        if row.len() != p {
             return None;
         }
-        let id = (row[0] as usize) / p;
+        let id = if p > 0 { (row[0] as usize) / p } else { id_from_t(trow)? };
         if id < n && row.iter().enumerate().all(|(j, v)| *v as usize == id * p + j) {
             Some(id)
         } else {
@@ -174,7 +230,7 @@ fn oracle_pair(ctx: &mut Ctx, what: &str, n: usize, k: usize, p: usize, i: usize
         let mut ids = vec![];
         ctx.require(rr.len() == tt.len(), "pairing", &class, || format!("{} fold {}: {} records vs {} targets", side, i, rr.len(), tt.len()));
         for (a, b) in rr.iter().zip(tt.iter()) {
-            match id_of_r(a) {
+            match id_of_r(a, b) {
                 Some(x) if exp_t(x) == *b => {
                     seen[x] += 1;
                     ids.push(x);
@@ -214,12 +270,22 @@ impl Cfg {
     }
     fn random(rng: &mut Rng, n: usize, k: usize, counted: bool) -> Cfg {
         let dim = 1 + rng.below(2);
-        let lays = ['C', 'C', 'F', 'S', 'R'];
+        let lays = ['C', 'C', 'F', 'S', 'R', 'Q', 'O'];
+        // "feature counts": no feature column at all in a twelfth of the draws, else (2-D targets) no
+        // target column in a twelfth; never both (nothing would identify a sample)
+        let p = if !counted && rng.chance(1, 12) { 0 } else { 1 + rng.below(4) };
+        let t = if dim == 1 {
+            1
+        } else if !counted && p > 0 && rng.chance(1, 12) {
+            0
+        } else {
+            1 + rng.below(3)
+        };
         Cfg {
             n,
             k,
-            p: 1 + rng.below(4),
-            t: if dim == 1 { 1 } else { 1 + rng.below(3) },
+            p,
+            t,
             dim,
             own: rng.below(3) as u8,
             lr: *rng.pick(&lays),
@@ -283,7 +349,7 @@ fn op_fold(em: &mut Em, c: Cfg) {
         ctx.require(pairs.len() == k, "fold_count", "fold", || format!("{} pairs for k={}", pairs.len(), k));
         let exp_t = |id: usize| -> Vec<u64> { (0..t).map(|cc| (TBASE + id * t + cc) as u64).collect() };
         for (i, (a, b, cc, d)) in pairs.iter().enumerate() {
-            oracle_pair(ctx, "fold", n, k, p, i, (a, b, cc, d), &exp_t);
+            oracle_pair(ctx, "fold", n, k, p, i, (a, b, cc, d), &exp_t, &tagged_id(t));
         }
         ok = true;
         let parts: Vec<String> = pairs
@@ -303,6 +369,12 @@ fn op_fold(em: &mut Em, c: Cfg) {
         em.count(&format!("ok:fold:et={}", c.et));
         em.count(&format!("ok:fold:dim={}", c.dim));
         em.count(if n % k == 0 { "ok:fold:n_mod_k=0" } else { "ok:fold:n_mod_k=nonzero" });
+        if p == 0 || t == 0 {
+            em.count("ok:fold:zero_width");
+        }
+        if k > 255 {
+            em.count("ok:fold:k>255");
+        }
     }
 }
 
@@ -319,7 +391,8 @@ fn counts_of<I: TD, T: Labels<Elem = usize>>(ctx: &mut Ctx, what: &str, t: usize
     ctx.require(lc.len() == t, "label_recount", "fold_counted", || format!("{}: {} label maps for {} target columns", what, lc.len(), t));
     lc.iter()
         .map(|m| {
-            ctx.require(m.iter().all(|(l, c)| *l < NLAB && *c > 0), "label_recount", "fold_counted", || format!("{}: label map {:?} has a foreign label or a zero count", what, m));
+            // (an entry with count 0 for a label of the parent would not contradict the statement)
+            ctx.require(m.iter().all(|(l, _)| *l < NLAB), "label_recount", "fold_counted", || format!("{}: label map {:?} has a foreign label", what, m));
             (0..NLAB).map(|l| *m.get(&l).unwrap_or(&0) as u64).collect()
         })
         .collect()
@@ -362,7 +435,7 @@ fn op_fold_counted(em: &mut Em, c: Cfg) {
             (0..t).map(|cc| (0..NLAB).map(|l| rr.iter().filter(|row| p > 0 && !row.is_empty() && label_of(row[0] as usize / p, cc) == l).count() as u64).collect()).collect()
         };
         for (i, (a, b, ct, cc, d, cv)) in pairs.iter().enumerate() {
-            oracle_pair(ctx, "fold_counted", n, k, p, i, (a, b, cc, d), &exp_t);
+            oracle_pair(ctx, "fold_counted", n, k, p, i, (a, b, cc, d), &exp_t, &|_| None);
             // the counts carried by each part are the counts OF that part
             ctx.require(*ct == recount(a), "label_recount", "fold_counted", || format!("fold {}: training label counts {:?}, recount {:?}", i, ct, recount(a)));
             ctx.require(*cv == recount(cc), "label_recount", "fold_counted", || format!("fold {}: validation label counts {:?}, recount {:?}", i, cv, recount(cc)));
@@ -390,6 +463,8 @@ struct IterOut {
     valids: Vec<(Rows, Rows)>,
     fin_r: Rows,
     fin_t: Rows,
+    /// rows seen through the second handle of a shared (`ArcArray`) dataset after the call
+    sibling: Option<(Rows, Rows)>,
 }
 
 fn iter_fold_run<A: El, B: El, I: TD>(c: &Cfg) -> IterOut {
@@ -399,6 +474,7 @@ fn iter_fold_run<A: El, B: El, I: TD>(c: &Cfg) -> IterOut {
     let clo = |tr: &DatasetView<A, B, I>| {
         trains.borrow_mut().push((rows2(&tr.records().view()), I::rows(&tr.targets().view())));
     };
+    let mut sibling = None;
     let (valids, fin_r, fin_t) = match c.own {
         1 => {
             let mut ds = DatasetBase::new(r, tg);
@@ -411,7 +487,7 @@ fn iter_fold_run<A: El, B: El, I: TD>(c: &Cfg) -> IterOut {
             let (r2, t2) = (rs.clone(), ts.clone());
             let mut ds = DatasetBase::new(rs, ts);
             let v: Vec<(Rows, Rows)> = ds.iter_fold(c.k, clo).map(|(_, va)| (rows2(&va.records().view()), I::rows(&va.targets().view()))).collect();
-            let _ = (r2.len(), t2.len());
+            sibling = Some((rows2(&r2.view()), I::rows(&t2.view())));
             (v, rows2(&ds.records().view()), I::rows(&ds.targets().view()))
         }
         _ => {
@@ -423,7 +499,7 @@ fn iter_fold_run<A: El, B: El, I: TD>(c: &Cfg) -> IterOut {
             (v, rows2(&r.view()), I::rows(&tg.view()))
         }
     };
-    IterOut { trains: trains.into_inner(), valids, fin_r, fin_t }
+    IterOut { trains: trains.into_inner(), valids, fin_r, fin_t, sibling }
 }
 fn iter_fold_dispatch(c: &Cfg) -> IterOut {
     macro_rules! go {
@@ -445,75 +521,81 @@ fn iter_fold_dispatch(c: &Cfg) -> IterOut {
         _ => unreachable!(),
     }
 }
-/// is the array of this shape and layout "contiguous and in standard order" (what `iter_fold` documents)?
-fn is_std(c: &Cfg) -> (bool, bool) {
-    let r = recs_l::<f64>(c.n, c.p, c.lr).is_standard_layout();
-    let t = if c.dim == 1 { tgts_l::<f64, Ix1>(c.n, c.t, c.lt).is_standard_layout() } else { tgts_l::<f64, Ix2>(c.n, c.t, c.lt).is_standard_layout() };
-    (r, t)
-}
-
 fn iter_fold_oracle(ctx: &mut Ctx, c: &Cfg, o: &IterOut) {
     let (n, k, p, t) = (c.n, c.k, c.p, c.t);
     ctx.require(o.trains.len() == k && o.valids.len() == k, "fold_count", "iter_fold", || format!("{} closures / {} validation views for k={}", o.trains.len(), o.valids.len(), k));
     let exp_t = |id: usize| -> Vec<u64> { (0..t).map(|cc| (TBASE + id * t + cc) as u64).collect() };
     for i in 0..k.min(o.trains.len()).min(o.valids.len()) {
-        oracle_pair(ctx, "iter_fold", n, k, p, i, (&o.trains[i].0, &o.trains[i].1, &o.valids[i].0, &o.valids[i].1), &exp_t);
+        oracle_pair(ctx, "iter_fold", n, k, p, i, (&o.trains[i].0, &o.trains[i].1, &o.valids[i].0, &o.valids[i].1), &exp_t, &tagged_id(t));
     }
     let want_r: Vec<u64> = (0..(n * p) as u64).collect();
     let want_t: Vec<u64> = (0..(n * t) as u64).map(|x| TBASE as u64 + x).collect();
-    ctx.require(flat(&o.fin_r) == want_r && flat(&o.fin_t) == want_t, "restored", &nk_class("iter_fold", n, k), || format!("buffers after iter_fold: {:?} / {:?}", o.fin_r, o.fin_t));
+    ctx.require(flat(&o.fin_r) == want_r && flat(&o.fin_t) == want_t && o.fin_r.len() == n && o.fin_t.len() == n, "restored", &nk_class("iter_fold", n, k), || format!("buffers after iter_fold: {:?} / {:?}", o.fin_r, o.fin_t));
+    if let Some((sr, st)) = &o.sibling {
+        // the other handle of the shared storage still shows the original rows in their order
+        ctx.require(flat(sr) == want_r && flat(st) == want_t && sr.len() == n && st.len() == n, "restored", "iter_fold:sibling_handle", || format!("second ArcArray handle after iter_fold: {:?} / {:?}", sr, st));
+    }
 }
 
+fn iter_fold_response(o: &IterOut) -> String {
+    let sh = |x: &(Rows, Rows)| format!("{}/{}", list(flat(&x.0), |v| v.to_string()), list(flat(&x.1), |v| v.to_string()));
+    let sh_sorted = |x: &(Rows, Rows)| sh(&sort_paired(&x.0, &x.1));
+    format!(
+        "ok trains={} valids={} final={}/{}",
+        o.trains.iter().map(sh_sorted).collect::<Vec<_>>().join(" "),
+        o.valids.iter().map(sh).collect::<Vec<_>>().join(" "),
+        list(flat(&o.fin_r), |v| v.to_string()),
+        list(flat(&o.fin_t), |v| v.to_string())
+    )
+}
+
+/// every `iter_fold` request is compared with the model (`iterFoldLayout sr st …`): where the code
+/// documents a panic (`k = 0`, `k > n`, not contiguous in standard order) the model answers
+/// `panic` as well.  The ORACLE speaks only where the statement does (`2 <= k <= n`: a panic on a
+/// dataset that `as_slice_mut` accepts is a failure) — and on every call that returns, whatever
+/// the layout or `k`, all clauses must hold.
 fn op_iter_fold(em: &mut Em, c: Cfg) {
     let (n, k) = (c.n, c.k);
-    let (sr, st) = is_std(&c);
-    if !guard(n, k) {
-        let mut outcome = "";
-        em.case(format!("iter_fold {}", c.line()), |_ctx| {
-            outcome = if catch_unwind(AssertUnwindSafe(|| iter_fold_dispatch(&c))).is_ok() { "unguarded:iter_fold:returned" } else { "unguarded:iter_fold:panic" };
-            "unguarded".to_string()
-        });
-        em.count(outcome);
-        return;
-    }
-    if !(sr && st) {
-        // documented: panics unless contiguous and in standard order.  The statement is about the
-        // calls that return: either the documented panic, or everything must hold.  Oracle only.
-        let mut outcome = "";
-        em.case_valid(format!("#iter_fold_nonstd {}", c.line()), "iter_fold_nonstd", |ctx| {
-            match catch_unwind(AssertUnwindSafe(|| iter_fold_dispatch(&c))) {
-                Err(_) => outcome = "nonstd:iter_fold:documented_panic",
-                Ok(o) => {
-                    outcome = "nonstd:iter_fold:returned";
-                    iter_fold_oracle(ctx, &c, &o);
-                }
-            }
-            "-".to_string()
-        });
-        em.count(outcome);
-        return;
-    }
-    let mut ok = false;
-    em.case_valid(format!("iter_fold {}", c.line()), "iter_fold", |ctx| {
+    let (sr, st) = probe_std(n, c.p, c.t, c.dim, c.lr, c.lt, c.own);
+    let op = format!("iter_fold {} sr={} st={}", c.line(), sr as u8, st as u8);
+    let promised = guard(n, k) && sr && st;
+    let mut returned = false;
+    let body = |ctx: &mut Ctx| {
         let o = iter_fold_dispatch(&c);
         iter_fold_oracle(ctx, &c, &o);
-        ok = true;
-        let sh = |x: &(Rows, Rows)| format!("{}/{}", list(flat(&x.0), |v| v.to_string()), list(flat(&x.1), |v| v.to_string()));
-        let sh_sorted = |x: &(Rows, Rows)| sh(&sort_paired(&x.0, &x.1));
-        format!(
-            "ok trains={} valids={} final={}/{}",
-            o.trains.iter().map(sh_sorted).collect::<Vec<_>>().join(" "),
-            o.valids.iter().map(sh).collect::<Vec<_>>().join(" "),
-            list(flat(&o.fin_r), |v| v.to_string()),
-            list(flat(&o.fin_t), |v| v.to_string())
-        )
-    });
-    if ok {
+        returned = true;
+        iter_fold_response(&o)
+    };
+    if promised {
+        em.case_valid(op, "iter_fold", body);
+    } else {
+        em.case(op, body);
+    }
+    if !guard(n, k) {
+        em.count(if returned { "unguarded:iter_fold:returned" } else { "unguarded:iter_fold:panic" });
+        if k == 1 && returned {
+            em.count("ok:iter_fold:k=1");
+        }
+    } else if !(sr && st) {
+        em.count(if returned { "nonstd:iter_fold:returned" } else { "nonstd:iter_fold:documented_panic" });
+    } else if returned {
         em.count(&format!("ok:iter_fold:own={}", c.own));
         em.count(&format!("ok:iter_fold:er={}", c.er));
         em.count(&format!("ok:iter_fold:et={}", c.et));
         em.count(&format!("ok:iter_fold:dim={}", c.dim));
+        em.count(&format!("ok:iter_fold:lr={}", c.lr));
         em.count(if n % k == 0 { "ok:iter_fold:n_mod_k=0" } else { "ok:iter_fold:n_mod_k=nonzero" });
+        if c.p == 0 || c.t == 0 {
+            em.count("ok:iter_fold:zero_width");
+        }
+        if k > 255 {
+            em.count("ok:iter_fold:k>255");
+        }
+        let t_plain = if c.dim == 1 { tgts_l::<f64, Ix1>(n, 1, c.lt).is_standard_layout() } else { tgts_l::<f64, Ix2>(n, c.t, c.lt).is_standard_layout() };
+        if c.own == 2 && !t_plain {
+            // shared strided targets that ndarray compacted when `view_mut()` made them unique
+            em.count("ok:iter_fold:arc_compacted");
+        }
     }
 }
 
@@ -566,6 +648,7 @@ struct Script {
     fit: Vec<Vec<u32>>,
     ev: Vec<Vec<u32>>,
     vals: Vec<Vec<Vec<i64>>>,
+    den: i64,
     notes: RefCell<Vec<(String, String)>>,
     fits_seen: RefCell<Vec<(usize, usize)>>,
     evals_seen: RefCell<Vec<(usize, usize)>>,
@@ -709,32 +792,40 @@ fn eval_common(s: &Script, pred: Vec<f64>, pred_rows: usize, truth_rows: Vec<Vec
     let m = m.min(s.ev[fold].len().saturating_sub(1));
     s.evals_seen.borrow_mut().push((fold, m));
     match s.ev[fold][m] {
-        0 => Ok(s.vals[fold][m].iter().map(|q| *q as f64 / 4.0).collect()),
+        // the integers `q` stand for `q / den`; the division happens in the accumulator's type
+        0 => Ok(s.vals[fold][m].iter().map(|q| *q as f64).collect()),
         c => Err(eval_error(c)),
     }
 }
 
 trait Acc: linfa::Float {
     const BITS: usize;
+    const EPS: f64;
     fn of(x: f64) -> Self;
-    fn hex(self) -> String;
+    fn to64(self) -> f64;
+    /// the score `q / den`, one rounding in the accumulator's own type (as the Lean driver does)
+    fn score(q: f64, den: i64) -> Self {
+        Self::of(q) / Self::of(den as f64)
+    }
 }
 impl Acc for f64 {
     const BITS: usize = 64;
+    const EPS: f64 = f64::EPSILON;
     fn of(x: f64) -> Self {
         x
     }
-    fn hex(self) -> String {
-        hex64(self)
+    fn to64(self) -> f64 {
+        self
     }
 }
 impl Acc for f32 {
     const BITS: usize = 32;
+    const EPS: f64 = f32::EPSILON as f64;
     fn of(x: f64) -> Self {
         x as f32
     }
-    fn hex(self) -> String {
-        hex32(self)
+    fn to64(self) -> f64 {
+        self as f64
     }
 }
 
@@ -746,18 +837,25 @@ struct CvCfg {
     m: usize,
     single: bool,
     acc: usize,
-    own: u8,
+    own: u8, // 0 mutable views, 1 owned, 2 ArcArray with a second handle alive
     lr: char,
     lt: char,
+    /// `Some(l)`: the evaluation closure returns only the first `l` of its `t` scores (a closure
+    /// that breaks the documented "one score per target": NOT promised, run and counted only)
+    evlen: Option<usize>,
 }
 
-type CvRes<FACC> = (Result<Vec<Vec<FACC>>, MockError>, Rows, Rows);
+/// result, dataset rows after the call, rows seen through the second handle (own = 2)
+type CvRes<FACC> = (Result<Vec<Vec<FACC>>, MockError>, Rows, Rows, Option<(Rows, Rows)>);
 
 fn cv_run<FACC: Acc>(c: &CvCfg, s: &Script) -> CvRes<FACC> {
     let params: Vec<MockParams> = (0..c.m).map(|i| MockParams { s, m: i }).collect();
     let t = c.t;
-    let ev1 = |pred: &Array1<f64>, truth: &ArrayView1<f64>| -> Result<FACC, linfa::error::Error> { eval_common(s, pred.to_vec(), pred.len(), Ix1::rows(truth)).map(|v| FACC::of(v[0])) };
-    let ev2 = |pred: &Array2<f64>, truth: &ArrayView2<f64>| -> Result<Array1<FACC>, linfa::error::Error> { eval_common(s, pred.iter().copied().collect(), pred.nrows(), rows2(truth)).map(|v| v.into_iter().map(FACC::of).collect()) };
+    let den = s.den;
+    let ev1 = |pred: &Array1<f64>, truth: &ArrayView1<f64>| -> Result<FACC, linfa::error::Error> { eval_common(s, pred.to_vec(), pred.len(), Ix1::rows(truth)).map(|v| FACC::score(v[0], den)) };
+    let ev2 = |pred: &Array2<f64>, truth: &ArrayView2<f64>| -> Result<Array1<FACC>, linfa::error::Error> {
+        eval_common(s, pred.iter().copied().collect(), pred.nrows(), rows2(truth)).map(|v| v.into_iter().take(c.evlen.unwrap_or(usize::MAX)).map(|q| FACC::score(q, den)).collect())
+    };
     let out1 = |a: Array1<FACC>| -> Vec<Vec<FACC>> { a.iter().map(|x| vec![*x]).collect() };
     let out2 = |a: Array2<FACC>| -> Vec<Vec<FACC>> { a.rows().into_iter().map(|r| r.to_vec()).collect() };
     let mut r = recs_l::<f64>(c.n, c.p, c.lr);
@@ -770,12 +868,19 @@ fn cv_run<FACC: Acc>(c: &CvCfg, s: &Script) -> CvRes<FACC> {
                     let x = ds.cross_validate_single(c.k, &params, ev1).map(out1);
                     x
                 };
-                (res, rows2(&r.view()), Ix1::rows(&tg.view()))
+                (res, rows2(&r.view()), Ix1::rows(&tg.view()), None)
+            }
+            2 => {
+                let (rs, ts) = (r.into_shared(), tg.into_shared());
+                let (r2, t2) = (rs.clone(), ts.clone());
+                let mut ds = DatasetBase::new(rs, ts);
+                let res = ds.cross_validate_single(c.k, &params, ev1).map(out1);
+                (res, rows2(&ds.records().view()), Ix1::rows(&ds.targets().view()), Some((rows2(&r2.view()), Ix1::rows(&t2.view()))))
             }
             _ => {
                 let mut ds = DatasetBase::new(r, tg);
                 let res = ds.cross_validate_single(c.k, &params, ev1).map(out1);
-                (res, rows2(&ds.records().view()), Ix1::rows(&ds.targets().view()))
+                (res, rows2(&ds.records().view()), Ix1::rows(&ds.targets().view()), None)
             }
         }
     } else {
@@ -787,19 +892,26 @@ fn cv_run<FACC: Acc>(c: &CvCfg, s: &Script) -> CvRes<FACC> {
                     let x = ds.cross_validate(c.k, &params, ev2).map(out2);
                     x
                 };
-                (res, rows2(&r.view()), rows2(&tg.view()))
+                (res, rows2(&r.view()), rows2(&tg.view()), None)
+            }
+            2 => {
+                let (rs, ts) = (r.into_shared(), tg.into_shared());
+                let (r2, t2) = (rs.clone(), ts.clone());
+                let mut ds = DatasetBase::new(rs, ts);
+                let res = ds.cross_validate(c.k, &params, ev2).map(out2);
+                (res, rows2(&ds.records().view()), rows2(&ds.targets().view()), Some((rows2(&r2.view()), rows2(&t2.view()))))
             }
             _ => {
                 let mut ds = DatasetBase::new(r, tg);
                 let res = ds.cross_validate(c.k, &params, ev2).map(out2);
-                (res, rows2(&ds.records().view()), rows2(&ds.targets().view()))
+                (res, rows2(&ds.records().view()), rows2(&ds.targets().view()), None)
             }
         }
     }
 }
 
 fn cv_oracle_and_response<FACC: Acc>(ctx: &mut Ctx, c: &CvCfg, s: &Script, out: CvRes<FACC>) -> String {
-    let (res, fin_r, fin_t) = out;
+    let (res, fin_r, fin_t, sibling) = out;
     let (n, k, p, t, m) = (c.n, c.k, c.p, c.t, c.m);
     let class = nk_class("cv", n, k);
     for (clause, detail) in s.notes.borrow().iter() {
@@ -808,6 +920,9 @@ fn cv_oracle_and_response<FACC: Acc>(ctx: &mut Ctx, c: &CvCfg, s: &Script, out: 
     let want_r: Vec<u64> = (0..(n * p) as u64).collect();
     let want_t: Vec<u64> = (0..(n * t) as u64).map(|x| TBASE as u64 + x).collect();
     ctx.require(flat(&fin_r) == want_r && flat(&fin_t) == want_t, "restored", &class, || format!("buffers after cross_validate: {:?} / {:?}", fin_r, fin_t));
+    if let Some((sr, st)) = &sibling {
+        ctx.require(flat(sr) == want_r && flat(st) == want_t, "restored", "cv:sibling_handle", || format!("second ArcArray handle after cross_validate: {:?} / {:?}", sr, st));
+    }
     // scripted failing cells
     let mut failing: Vec<String> = vec![];
     let mut scripted_eval: Vec<u32> = vec![];
@@ -826,24 +941,32 @@ fn cv_oracle_and_response<FACC: Acc>(ctx: &mut Ctx, c: &CvCfg, s: &Script, out: 
         Ok(a) => {
             ctx.require(failing.is_empty(), "cv_error_surfaces", &class, || format!("Ok although these cells fail: {:?}", failing));
             if failing.is_empty() {
-                // every model fitted once per fold and evaluated once per fold
+                // every model is fitted on every fold and evaluated on every fold (a second call for
+                // the same cell would not contradict the statement; double counting shows in the mean)
                 let mut fs_seen = s.fits_seen.borrow().clone();
                 let mut es_seen = s.evals_seen.borrow().clone();
                 fs_seen.sort();
+                fs_seen.dedup();
                 es_seen.sort();
+                es_seen.dedup();
                 let all: Vec<(usize, usize)> = (0..k).flat_map(|f| (0..m).map(move |mi| (f, mi))).collect();
                 ctx.require(fs_seen == all && es_seen == all, "cv_every_cell_once", &class, || format!("fits {:?} evals {:?}", fs_seen, es_seen));
-                // the mean, in the accumulator's own arithmetic (quarter units: sums exact)
-                let mut want = vec![vec![FACC::of(0.0); t]; m];
-                for mi in 0..m {
-                    for cc in 0..t {
-                        let sum: i64 = (0..k).map(|f| s.vals[f][mi][cc]).sum();
-                        want[mi][cc] = FACC::of(sum as f64 / 4.0) / FACC::of(k as f64);
+                // the arithmetic mean, from first principles in f64; tolerance = what ANY order of
+                // summation / division in the accumulator's type can lose
+                let cls = format!("{}:acc=f{}", class, FACC::BITS);
+                ctx.require(a.len() == m && a.iter().all(|r| r.len() == t), "cv_is_mean", &cls, || format!("score table {:?} is not {} models x {} targets", a, m, t));
+                for mi in 0..m.min(a.len()) {
+                    for cc in 0..t.min(a[mi].len()) {
+                        let xs: Vec<f64> = (0..k).map(|f| s.vals[f][mi][cc] as f64 / s.den as f64).collect();
+                        let mean = xs.iter().sum::<f64>() / k as f64;
+                        let sabs = xs.iter().map(|x| x.abs()).sum::<f64>();
+                        let tol = (k as f64 + 4.0) * FACC::EPS * sabs / k as f64 + 1e-300;
+                        let got = a[mi][cc].to64();
+                        ctx.require((got - mean).abs() <= tol, "cv_is_mean", &cls, || format!("model {} target {}: score {:e}, mean of the {} per-fold evaluations {:e} (tolerance {:e})", mi, cc, got, k, mean, tol));
                     }
                 }
-                ctx.require(*a == want, "cv_is_mean", &format!("{}:acc=f{}", class, FACC::BITS), || format!("scores {:?}, mean of per-fold evaluations {:?}", a, want));
             }
-            format!("ok {}", list2(a.iter().map(|r| r.iter()), |x| x.hex()))
+            format!("ok {}", list2(a.iter().map(|r| r.iter()), |x| format!("~{}", hex64(x.to64()))))
         }
         Err(e) => {
             let name = canon_err(e, &scripted_eval);
@@ -858,9 +981,10 @@ fn cv_oracle_and_response<FACC: Acc>(ctx: &mut Ctx, c: &CvCfg, s: &Script, out: 
     }
 }
 
-fn op_cv(em: &mut Em, c: CvCfg, fit: Vec<Vec<u32>>, ev: Vec<Vec<u32>>, vals: Vec<Vec<Vec<i64>>>) {
+fn op_cv(em: &mut Em, c: CvCfg, den: i64, fit: Vec<Vec<u32>>, ev: Vec<Vec<u32>>, vals: Vec<Vec<Vec<i64>>>) {
+    let (sr, st) = probe_std(c.n, c.p, c.t, if c.single { 1 } else { 2 }, c.lr, c.lt, c.own);
     let line = format!(
-        "n={} k={} p={} t={} m={} single={} acc={} own={} lr={} lt={} fit={} ev={} vals={}",
+        "n={} k={} p={} t={} m={} single={} acc={} own={} lr={} lt={} sr={} st={} den={} fit={} ev={} vals={}",
         c.n,
         c.k,
         c.p,
@@ -871,41 +995,21 @@ fn op_cv(em: &mut Em, c: CvCfg, fit: Vec<Vec<u32>>, ev: Vec<Vec<u32>>, vals: Vec
         c.own,
         c.lr,
         c.lt,
+        sr as u8,
+        st as u8,
+        den,
         list2(fit.iter().map(|x| x.iter()), |x| x.to_string()),
         list2(ev.iter().map(|x| x.iter()), |x| x.to_string()),
         list3(vals.iter().map(|x| x.iter().map(|y| y.iter())), |x| x.to_string())
     );
-    let s = Script { n: c.n, k: c.k, p: c.p, t: c.t, fit, ev, vals, notes: RefCell::new(vec![]), fits_seen: RefCell::new(vec![]), evals_seen: RefCell::new(vec![]) };
-    let sr = recs_l::<f64>(c.n, c.p, c.lr).is_standard_layout();
-    let st = if c.single { tgts_l::<f64, Ix1>(c.n, 1, c.lt).is_standard_layout() } else { tgts_l::<f64, Ix2>(c.n, c.t, c.lt).is_standard_layout() };
-    if !guard(c.n, c.k) {
-        let mut outcome = "";
-        em.case(format!("cv {}", line), |_ctx| {
-            let r = if c.acc == 32 { catch_unwind(AssertUnwindSafe(|| cv_run::<f32>(&c, &s).0.is_ok())) } else { catch_unwind(AssertUnwindSafe(|| cv_run::<f64>(&c, &s).0.is_ok())) };
-            outcome = if r.is_ok() { "unguarded:cv:returned" } else { "unguarded:cv:panic" };
-            "unguarded".to_string()
-        });
-        em.count(outcome);
-        return;
-    }
-    if !(sr && st) {
-        let mut outcome = "";
-        em.case_valid(format!("#cv_nonstd {}", line), "cv_nonstd", |ctx| {
-            let r = catch_unwind(AssertUnwindSafe(|| cv_run::<f64>(&c, &s)));
-            match r {
-                Err(_) => outcome = "nonstd:cv:documented_panic",
-                Ok(out) => {
-                    outcome = "nonstd:cv:returned";
-                    let _ = cv_oracle_and_response::<f64>(ctx, &c, &s, out);
-                }
-            }
-            "-".to_string()
-        });
-        em.count(outcome);
-        return;
-    }
+    let s = Script { n: c.n, k: c.k, p: c.p, t: c.t, fit, ev, vals, den, notes: RefCell::new(vec![]), fits_seen: RefCell::new(vec![]), evals_seen: RefCell::new(vec![]) };
+    // the op name selects the comparison rule of the score tokens (f64 / f32 accumulator)
+    let op = format!("{} {}", if c.acc == 32 { "cv32" } else { "cv" }, line);
+    // compared for every k and layout (the documented panics of iter_fold included); the oracle's
+    // `no_panic` speaks where the statement does
+    let promised = guard(c.n, c.k) && sr && st;
     let mut kind = String::new();
-    em.case_valid(format!("cv {}", line), "cv", |ctx| {
+    let body = |ctx: &mut Ctx| {
         let resp = if c.acc == 32 {
             let out = cv_run::<f32>(&c, &s);
             cv_oracle_and_response::<f32>(ctx, &c, &s, out)
@@ -915,33 +1019,86 @@ fn op_cv(em: &mut Em, c: CvCfg, fit: Vec<Vec<u32>>, ev: Vec<Vec<u32>>, vals: Vec
         };
         kind = resp.split(' ').next().unwrap_or("").to_string();
         resp
-    });
-    if kind == "ok" {
+    };
+    if promised {
+        em.case_valid(op, "cv", body);
+    } else {
+        em.case(op, body);
+    }
+    let returned = !kind.is_empty();
+    if !guard(c.n, c.k) {
+        em.count(if returned { "unguarded:cv:returned" } else { "unguarded:cv:panic" });
+        if c.k == 1 && kind == "ok" {
+            em.count("ok:cv:k=1");
+        }
+    } else if !(sr && st) {
+        em.count(if returned { "nonstd:cv:returned" } else { "nonstd:cv:documented_panic" });
+    } else if kind == "ok" {
         em.count(&format!("ok:cv:acc=f{}", c.acc));
         em.count(&format!("ok:cv:own={}", c.own));
         em.count(&format!("ok:cv:single={}", c.single as u8));
         em.count(&format!("ok:cv:m={}", c.m.min(3)));
+        em.count(&format!("ok:cv:den={}", den));
+        if c.m > 0 && den != 4 {
+            em.count(&format!("ok:cv:rounding_scores:acc=f{}", c.acc));
+        }
         if c.k > 255 {
-            em.count("ok:cv:k>255");
+            em.count(&format!("ok:cv:k>255:acc=f{}", c.acc));
         }
     } else if kind == "err" {
         em.count("errsurfaced:cv");
     }
 }
 
-fn gen_cv(em: &mut Em, rng: &mut Rng, n: usize, k: usize, nonstd: bool) {
+/// NOT promised (the documentation asks for one score per target): an evaluation closure that
+/// returns fewer scores than there are target columns.  Run against the real code and counted:
+/// ndarray broadcasts a single score into every column and refuses any other length.
+fn op_cv_evalshape(em: &mut Em, n: usize, k: usize, t: usize, evlen: usize) {
+    let m = 2;
+    let c = CvCfg { n, k, p: 1, t, m, single: false, acc: 64, own: 1, lr: 'C', lt: 'C', evlen: Some(evlen) };
+    let vals: Vec<Vec<Vec<i64>>> = (0..k).map(|f| (0..m).map(|mi| (0..t).map(|cc| (1 + f + 3 * mi + 7 * cc) as i64).collect()).collect()).collect();
+    let s = Script { n, k, p: 1, t, fit: vec![vec![0; m]; k], ev: vec![vec![0; m]; k], vals, den: 4, notes: RefCell::new(vec![]), fits_seen: RefCell::new(vec![]), evals_seen: RefCell::new(vec![]) };
+    let mut outcome = String::new();
+    em.case(format!("#cv_evalshape n={} k={} t={} evlen={}", n, k, t, evlen), |_ctx| {
+        outcome = match catch_unwind(AssertUnwindSafe(|| cv_run::<f64>(&c, &s))) {
+            Err(_) => "panic".to_string(),
+            Ok((Err(_), ..)) => "error".to_string(),
+            Ok((Ok(a), ..)) => {
+                // what came back: the first score's mean in every column?
+                let bc = (0..m).all(|mi| {
+                    let mean = (0..k).map(|f| s.vals[f][mi][0] as f64 / 4.0).sum::<f64>() / k as f64;
+                    a.len() == m && a[mi].len() == t && a[mi].iter().all(|x| (*x - mean).abs() <= 1e-12 * mean.abs())
+                });
+                if bc { "broadcast".to_string() } else { "other".to_string() }
+            }
+        };
+        "-".to_string()
+    });
+    em.count(&format!("unpromised:evalshape:len{}_of_{}:{}", evlen, t, outcome));
+}
+
+#[derive(Clone, Copy, Default)]
+struct CvGen {
+    nonstd: bool,
+    acc: Option<usize>,
+    force_ok: bool,
+    positive: bool,
+}
+
+fn gen_cv(em: &mut Em, rng: &mut Rng, n: usize, k: usize, g: CvGen) {
     let p = 1 + rng.below(3);
     let single = rng.chance(1, 3);
-    let t = if single { 1 } else { 1 + rng.below(3) };
+    // mostly 1..3 target columns / models, sometimes more
+    let t = if single { 1 } else if rng.chance(1, 10) { 4 + rng.below(2) } else { 1 + rng.below(3) };
     // "any number of candidate models": none at all in a tenth of the runs
-    let m = if rng.chance(1, 10) { 0 } else { 1 + rng.below(3) };
-    let acc = if rng.chance(1, 3) { 32 } else { 64 };
-    let own = rng.below(2) as u8;
-    let (lr, lt) = if nonstd { (*rng.pick(&['F', 'S', 'R']), *rng.pick(&['C', 'S', 'R'])) } else { ('C', 'C') };
+    let m = if rng.chance(1, 10) { 0 } else if rng.chance(1, 10) { 4 + rng.below(3) } else { 1 + rng.below(3) };
+    let acc = g.acc.unwrap_or(if rng.chance(1, 3) { 32 } else { 64 });
+    let own = *rng.pick(&[0u8, 1, 1, 2]);
+    let (lr, lt) = if g.nonstd { (*rng.pick(&['F', 'S', 'R', 'Q']), *rng.pick(&['C', 'S', 'R', 'O'])) } else { (*rng.pick(&['C', 'C', 'O']), *rng.pick(&['C', 'C', 'O'])) };
     // mostly valid runs; half with a scripted failure somewhere.  Codes are unique per cell.
     let mut fit = vec![vec![0u32; m]; k];
     let mut ev = vec![vec![0u32; m]; k];
-    let mode = if m == 0 { 5 } else { rng.below(6) };
+    let mode = if m == 0 || g.force_ok { 5 } else { rng.below(6) };
     if mode == 0 || mode == 2 {
         for _ in 0..1 + rng.below(2) {
             let (f, mi) = (rng.below(k), rng.below(m));
@@ -960,8 +1117,12 @@ fn gen_cv(em: &mut Em, rng: &mut Rng, n: usize, k: usize, nonstd: bool) {
         2 => "cv:both_errors",
         _ => "cv:ok",
     });
-    let vals: Vec<Vec<Vec<i64>>> = (0..k).map(|_| (0..m).map(|_| (0..t).map(|_| rng.range(-40, 40)).collect()).collect()).collect();
-    op_cv(em, CvCfg { n, k, p, t, m, single, acc, own, lr, lt }, fit, ev, vals);
+    // scores q/4 (exact sums) or q/10 (every score and every partial sum rounds: a mean taken
+    // through a narrower type, or accumulated in another type than FACC, shows)
+    let den = if rng.chance(1, 2) { 10 } else { 4 };
+    let lo = if g.positive { 1 } else { -40 };
+    let vals: Vec<Vec<Vec<i64>>> = (0..k).map(|_| (0..m).map(|_| (0..t).map(|_| rng.range(lo, 40)).collect()).collect()).collect();
+    op_cv(em, CvCfg { n, k, p, t, m, single, acc, own, lr, lt, evlen: None }, den, fit, ev, vals);
 }
 
 pub fn run(em: &mut Em, rng: &mut Rng) {
@@ -980,21 +1141,35 @@ pub fn run(em: &mut Em, rng: &mut Rng) {
             if guard(n, k) {
                 let c = Cfg::random(rng, n, k, false);
                 op_fold(em, c);
-                let mut ci = Cfg::random(rng, n, k, false);
-                // iter_fold promises a result on standard layout only: mostly draw that, sometimes not
-                if !rng.chance(1, 5) {
-                    ci.lr = 'C';
-                    ci.lt = 'C';
-                }
-                op_iter_fold(em, ci);
                 if (n + k) % 3 == 0 {
                     op_fold_counted(em, Cfg::random(rng, n, k, true));
                 }
             }
-            if k >= 1 && k <= n && n <= 24 {
-                gen_cv(em, rng, n, k, false);
+            if k >= 1 && k <= n {
+                // iter_fold returns on what `as_slice_mut` accepts: mostly draw that (row-major, with
+                // or without an offset into the allocation), sometimes any layout
+                let mut ci = Cfg::random(rng, n, k, false);
+                if !rng.chance(1, 5) {
+                    ci.lr = *rng.pick(&['C', 'C', 'O']);
+                    ci.lt = *rng.pick(&['C', 'C', 'O']);
+                }
+                op_iter_fold(em, ci);
+            }
+            if guard(n, k) && (n + 2 * k) % 11 == 0 {
+                // shared strided targets: ndarray copies them compactly when `view_mut()` makes them
+                // unique, so `iter_fold` gets its slice and returns (on a fixed share of the pairs)
+                let mut ca = Cfg::random(rng, n, k, false);
+                ca.own = 2;
+                ca.lr = *rng.pick(&['C', 'O']);
+                ca.lt = 'S';
+                op_iter_fold(em, ca);
+            }
+            if k >= 1 && k <= n + 1 && n <= 24 {
+                if k <= n || rng.chance(1, 4) {
+                    gen_cv(em, rng, n, k, CvGen::default());
+                }
                 if guard(n, k) && rng.chance(1, 8) {
-                    gen_cv(em, rng, n, k, true);
+                    gen_cv(em, rng, n, k, CvGen { nonstd: true, ..CvGen::default() });
                 }
             }
         }
@@ -1008,22 +1183,37 @@ pub fn run(em: &mut Em, rng: &mut Rng) {
         op_fold(em, c);
         let mut ci = Cfg::random(rng, n, k, false);
         if !rng.chance(1, 5) {
-            ci.lr = 'C';
-            ci.lt = 'C';
+            ci.lr = *rng.pick(&['C', 'C', 'O']);
+            ci.lt = *rng.pick(&['C', 'C', 'O']);
         }
         op_iter_fold(em, ci);
         if rng.chance(1, 4) {
             op_fold_counted(em, Cfg::random(rng, n, k, true));
         }
         if n <= 200 {
-            gen_cv(em, rng, n, k, false);
+            gen_cv(em, rng, n, k, CvGen::default());
         }
     }
-    // fold counts beyond u8: the divisor of the mean is k itself
-    let big = if em.thorough() { 30 } else { 6 };
-    for _ in 0..big {
+    // fold counts beyond u8 — cross-validation: the divisor of the mean is k itself, in f64 and f32
+    let big = if em.thorough() { 60 } else { 24 };
+    for i in 0..big {
         let n = 256 + rng.below(400);
         let k = 256 + rng.below(n - 255);
-        gen_cv(em, rng, n, k, false);
+        gen_cv(em, rng, n, k, CvGen { acc: Some(if i % 2 == 0 { 32 } else { 64 }), force_ok: i % 4 < 3, positive: true, ..CvGen::default() });
+    }
+    // — and fold / iter_fold themselves (k pairs of n rows each: keep the rows narrow)
+    let bigf = if em.thorough() { 8 } else { 3 };
+    for _ in 0..bigf {
+        let n = 256 + rng.below(45);
+        let k = 256 + rng.below(n - 255);
+        let mut c = Cfg::random(rng, n, k, false);
+        c.p = 1;
+        c.t = 1;
+        op_fold(em, c);
+        op_iter_fold(em, Cfg { lr: 'C', lt: 'C', ..c });
+    }
+    // not promised: evaluation closures that return the wrong number of scores
+    for (t, evlen) in [(2usize, 1usize), (3, 1), (3, 2)] {
+        op_cv_evalshape(em, 6, 3, t, evlen);
     }
 }
